@@ -23,7 +23,8 @@ CLAIMS = {
         "text": "Static lock/effect rules: the id-table mutex is acquired poison-tolerantly or has no explicit panic site in any critical "
                 "section; no panic site reachable from Drop of the delivery state or from any Exfiltrator::init (retry-safe, CAS from null); "
                 "Drop unregisters the whole table; no capture cycle / forget on delivery types; with_pipe RAII; re-add guarded by the same "
-                "index being None and written only after Ok. Found and repaired two genuine defects (fixed: entries).",
+                "index being None and written only after Ok; the id of every successful registration is recorded before the next registration call; the "
+                "destructor reaches its unregistering code on every path (also with a poisoned table). Found and repaired two genuine defects (fixed: entries).",
         "note": TB + " Not decided: 'exactly as before' as a behavioural equivalence over arbitrary call sequences.",
         "technique": "static analysis: lock critical-section / panic-site reachability, must-pass-through and control-dependence rules on MIR",
     },
@@ -31,14 +32,15 @@ CLAIMS = {
         "text": "Static order/ownership rules on both HalfLock<T> instantiations: free only after the completed reader barrier that follows the swap "
                 "(must-pass-through), reader count before pointer load (dominance), guard built from that pointer/slot and released exactly once, the "
                 "four store-buffering accesses SeqCst and the release >= Release (orderings invisible on x86), barrier reads the whole slot array, "
-                "who-may-free, no FREE leaf in the dispatch cone.",
-        "note": TB + " Not decided: correctness of the grace-period protocol as a whole; the barrier's value-level exit condition (all vs any, sticky).",
+                "who-may-free, no FREE leaf in the dispatch cone; the wait's bookkeeping: seen-idle flags start false, are raised only on a slot read as 0, "
+                "and a flag found false keeps the writer waiting (path rule: no free within the same round).",
+        "note": TB + " Not decided: correctness of the grace-period protocol as a whole (the structural necessary conditions above are decided, not the interleaving argument).",
         "technique": "static analysis: dominance / must-pass-through on MIR CFGs, atomic-ordering inventory vs litmus minima, who-may-call, effect reachability",
     },
     "C18": {
         "text": "Static lock analysis: acquired-while-holding graph over the four locks is acyclic and the fallback lock is only taken under the data "
                 "lock; writer mutex acquisitions are poison-tolerant and other locks have no panic site inside critical sections; the read path has no "
-                "loop and no LOCK/WAIT leaf, the only wait loop is writer-side and polls only reader slots; reader increments are paired with decrements.",
+                "loop and no LOCK/WAIT leaf, the only wait loop is writer-side and polls only reader slots; reader increments are paired with decrements of the same amount, counters start at zero, the generation flips by an odd constant, the wait loop samples inside its body.",
         "note": TB + " Not decided: termination of the barrier's value-level logic; scheduler fairness.",
         "technique": "static analysis: lock-order graph, poison-tolerance idiom classification, loop/leaf rules over the call graph",
     },
@@ -60,7 +62,7 @@ CLAIMS = {
     "C05": {
         "text": "Static who-writes / footprint / constant rules: next_id written only as old+1 on the clone by the registering function, SigId = (signal "
                 "parameter, pre-increment id) returned only after the publish; forbidden map-method sets per mutator with keys traced to id.signal / "
-                "id.action / signal; return value and publish condition are the same boolean; every sigaction site is install (flags fold to "
+                "id.action / signal; register inserts its action argument (and a newly made slot) before the publish on every path; return value and publish condition are the same boolean; every sigaction site is install (flags fold to "
                 "SA_RESTART|SA_SIGINFO, dispatcher address), query (null) or the terminating SIG_DFL restore; SigId fields private.",
         "note": TB + " Not decided: equivalence to the abstract multiset model over arbitrary histories.",
         "technique": "static analysis: who-may-write inventory, key provenance, constant folding of flag words, control-dependence on MIR",
